@@ -27,6 +27,8 @@ pub struct WakeupRequest {
     pub db: DatabaseIndex,
     pub key: Vec<u8>,
     pub op_type: BlockingOp,
+    /// When the client blocked: its place in the queues should the wake-up find nothing
+    pub blocked_at: Instant,
 }
 
 /// Per-database blocking registry
@@ -52,6 +54,17 @@ impl BlockingRegistry {
                 .entry(key.clone())
                 .or_insert_with(VecDeque::new)
                 .push_back(client.clone());
+            self.blocked_keys.insert(key.clone());
+        }
+    }
+    
+    /// Register a client again at the place its original arrival time gives it: before every
+    /// client that blocked later (the queues are ordered by arrival time)
+    pub fn reregister_blocked_client(&mut self, client: BlockedClient, keys: &[(DatabaseIndex, Vec<u8>)]) {
+        for (_db, key) in keys {
+            let queue = self.blocked_on_key.entry(key.clone()).or_insert_with(VecDeque::new);
+            let pos = queue.iter().position(|c| c.blocked_at > client.blocked_at).unwrap_or(queue.len());
+            queue.insert(pos, client.clone());
             self.blocked_keys.insert(key.clone());
         }
     }
@@ -176,6 +189,22 @@ impl BlockingManager {
         Ok(())
     }
     
+    /// Register again a client whose wake-up found nothing, keeping the place in the queues
+    /// that the time it originally blocked at gives it
+    pub fn reregister_blocked(&self, db: DatabaseIndex, conn_id: u64, keys: Vec<Vec<u8>>, op_type: BlockingOp, deadline: Option<Instant>, blocked_at: Instant) -> Result<()> {
+        if db >= self.registries.len() {
+            return Err(crate::error::FerrousError::Storage(crate::error::StorageError::InvalidDatabase));
+        }
+        
+        let client = BlockedClient { conn_id, blocked_at, deadline, op_type };
+        let keys_with_db: Vec<(DatabaseIndex, Vec<u8>)> = keys.into_iter().map(|k| (db, k)).collect();
+        
+        let mut registry = self.registries[db].write().unwrap();
+        registry.reregister_blocked_client(client, &keys_with_db);
+        
+        Ok(())
+    }
+    
     /// Unregister a client from all blocked operations
     pub fn unregister_client(&self, db: DatabaseIndex, conn_id: u64) -> Result<()> {
         if db >= self.registries.len() {
@@ -226,6 +255,7 @@ impl BlockingManager {
             db,
             key: key.to_vec(),
             op_type: client.op_type,
+            blocked_at: client.blocked_at,
         });
     }
     
